@@ -327,6 +327,25 @@ class IsaCheck:
         if nf != sem.nwords - 1:
             self.add(["C07"] + fam_props, f.name, "length", "%s consumes %d words, encoding has %d" % (f.name, nf + 1, sem.nwords), care)
         if sem.mes:
+            # TRAPA #0: the handler itself only calls the MES gate (C14) and charges; it must not touch the CPU state
+            self.cls = "sem:C14"
+            d = self.differs(cpu.fields[fi["pc"]].bits, sem.pc_next, care)
+            if d != 0:
+                self.add(["C14"], f.name, "pc", "execution does not continue at the instruction following TRAPA #0", d)
+            d = self.differs(cpu.fields[fi["ccr"]].bits, self.ccr0, care)
+            if d != 0:
+                self.add(["C14"], f.name, "ccr", "TRAPA #0 changes CCR", d)
+            carr = cpu.fields[fi["er"]]
+            for k in range(8):
+                d = self.differs(self.ip.arr_read(carr, bv.const(k, 3)), self.ip.arr_read(SymArr("er", 8, 32), bv.const(k, 3)), care)
+                if d != 0:
+                    self.add(["C14"], f.name, "reg", "TRAPA #0 changes ER%d outside the MES gate" % k, d)
+                    break
+            nmes = len([e for e in st.eff if e[0] == "mes"])
+            nmem = len([e for e in st.eff if e[0] in ("memread", "memwrite")])
+            self.count(nmes == 1 and nmem == 0)
+            if not (nmes == 1 and nmem == 0):
+                self.add(["C14"], f.name, "gate", "TRAPA #0 does not call the MES gate exactly once, or accesses memory itself (%d calls, %d accesses)" % (nmes, nmem), care)
             return
         sem_checks = f.family != "STC"
         # (b) pc
